@@ -332,10 +332,11 @@ class BytesOp(Op):
         m, a = op["method"], op["args"]
         if m == "poke_shared":
             return a[0] in w.shared_bytes
+        over = 4 if w.cfg.get("allow_overlong") else 0
         if m == "init_size":
-            return 0 <= a[0] <= n.a["size"]
+            return 0 <= a[0] <= n.a["size"] + over
         if m == "assign":
-            return len(a[0]) // 2 <= n.a["size"]
+            return len(a[0]) // 2 <= n.a["size"] + over
         if m in ("edit", "edit_slice") and op["bi"] in w.immutable_contents:
             return False  # the caller stored an immutable bytes object
         if m == "edit":
